@@ -18,7 +18,7 @@ def t2(sx, S, prefix, rsv, oldlens, lens, long, nxp=None):
 def t1(sx, hr, size, prefix, rsv, oldlens, lens, long):
     oldlen = sx.pick("oldlen", oldlens)
     w = worlds.T1World(sx, tuple(hr), size, prefix, [tuple(r) for r in rsv], oldlen,
-                       old_lt_80=long)
+                       old_lt_80=long, phys=512 if size == 296 else None)
     w.long_trick = long
     n = sx.pick("n", [x for x in lens_for(w.cap, lens)])
     return ndefflow.roundtrip(sx, w, n)
@@ -131,7 +131,13 @@ def partitions(tier):
           ("static-m", (0x11, 0x48), 120, "M", [(40, 8)]),
           ("topaz512", (0x12, 0x4C), 512, "LM", [(122, 6), (120, 2)]),
           ("dynamic", (0x12, 0x00), 512, "NLM", [(122, 6), (200, 9)]),
-          ("dynamic-bare", (0x12, 0x4C), 512, "", [])]
+          ("dynamic-bare", (0x12, 0x4C), 512, "", []),
+          # dynamic memory tags other than Topaz-512 (HR0 = 1yh, y != 1, 2)
+          ("dyn256:13", (0x13, 0x00), 256, "", []),
+          ("dyn512:1f", (0x1F, 0x00), 512, "LM", [(122, 6), (120, 2)]),
+          # 257 / 258 bytes left for the NDEF TLV (capacity calculation edge)
+          ("dyn296:NNN", (0x13, 0x00), 296, "NNN", []),
+          ("dyn296:NN", (0x13, 0x00), 296, "NN", [])]
     for name, hr, size, prefix, rsv in T1:
         parts.append(dict(name="t1:%s:free" % name, fn="t1",
                           params=dict(hr=hr, size=size, prefix=prefix, rsv=rsv, oldlens=[0, 2],
@@ -140,11 +146,15 @@ def partitions(tier):
         lens = [3, 9, "cap-1", "cap", "cap+1"]
         if size > 300:
             lens = [9, 100, 253, 254, 255, 256, "cap-1", "cap", "cap+1"]
+        elif size == 296:
+            lens = [253, 254, 255, 256, 257, "cap", "cap+1"]
+        elif size > 120:
+            lens = [9, 79, 80, 100, "cap-1", "cap", "cap+1"]
         if tier != "quick" and size == 120:
             lens = list(range(3, 92))
         parts.append(dict(name="t1:%s:sep" % name, fn="t1",
                           params=dict(hr=hr, size=size, prefix=prefix, rsv=rsv,
-                                      oldlens=[0, 5] if size == 120 else [0, 5, 255],
+                                      oldlens=[0, 5] if size == 120 else ([0, 5, 200] if size < 400 else [0, 5, 255]),
                                       lens=lens, long=True)))
     # ---- Type 3 (and the library's own Type 3 Tag emulation as the tag)
     for emulated in (False, True):
